@@ -14,7 +14,7 @@ from .common import metric_registry
 from .fsrun import FS, FileH, FSInterp, PathV
 
 INFO = {
-    "explanation": "Writer and reader are interpreted over the same abstract file: an aggregator session (groups 'g1' and 'left-lung', three metrics, optional computation time) writes subjects whose cells are distinct finite floats (incl. exponent notation and integers), NaN, +inf, -inf, None and uncomputable (missing) metrics; Panoptica_Statistic.from_file is then interpreted on the resulting rows. (R18.1/R18.2) subjects, group names (with '-') and metric names are recovered and every (subject, group, metric) cell comes back under its own key - no column shift when a metric is missing; (R18.4) finite values come back as the float written, NaN / +inf / -inf / empty come back as missing; (R18.3) every csv reader/writer site and the open() feeding it agree on delimiter, line terminator, newline and encoding, and the output file is only read through csv.reader; (R18.5) the metric vocabulary (registry names, global_bin_<metric>, computation_time) does not contain the group/metric separator.",
+    "explanation": "(R18.6) the aggregator passes the subject's prediction and reference to the evaluator uncrossed; Writer and reader are interpreted over the same abstract file: an aggregator session (groups 'g1' and 'left-lung', three metrics, optional computation time) writes subjects whose cells are distinct finite floats (incl. exponent notation and integers), NaN, +inf, -inf, None and uncomputable (missing) metrics; Panoptica_Statistic.from_file is then interpreted on the resulting rows. (R18.1/R18.2) subjects, group names (with '-') and metric names are recovered and every (subject, group, metric) cell comes back under its own key - no column shift when a metric is missing; (R18.4) finite values come back as the float written, NaN / +inf / -inf / empty come back as missing; (R18.3) every csv reader/writer site and the open() feeding it agree on delimiter, line terminator, newline and encoding, and the output file is only read through csv.reader; (R18.5) the metric vocabulary (registry names, global_bin_<metric>, computation_time) does not contain the group/metric separator.",
     "trusted_base": ["csv module writes and reads back every cell (quoting) with identical dialect options", "repr(float) round-trips through float()"],
     "assumptions": ["group names are arbitrary printable text; metric names come from the library's registry"],
     "not_decided": ["bit-identity of repr/float (language guarantee, assumed)"],
@@ -134,13 +134,16 @@ def check_dialect(ctx: Ctx):
     fs, values, wits, agg = write_file(ctx, False)
     sites = []
     opens = []
+    phase_kinds = {"aggregator": set(), "loader": set()}
     for it in wits:
         sites += it.root.csv_sites
         opens += it.root.open_sites
+        phase_kinds["aggregator"] |= {s[0] for s in it.root.csv_sites}
     try:
         f, out, it = read_file(ctx, fs)
         sites += it.root.csv_sites
         opens += it.root.open_sites
+        phase_kinds["loader"] |= {s[0] for s in it.root.csv_sites}
     except Undecided:
         pass
     # make_statistic goes through from_file as well; header reader in the constructor on an existing file
@@ -148,6 +151,7 @@ def check_dialect(ctx: Ctx):
     a2, o2, i2 = new_session(ctx.prog, fs2, "/d/out.tsv")
     sites += i2.root.csv_sites
     opens += i2.root.open_sites
+    phase_kinds["aggregator"] |= {s[0] for s in i2.root.csv_sites}
     dial = set()
     uniq = {}
     for kind, opts, node, qual, h in sites:
@@ -159,9 +163,10 @@ def check_dialect(ctx: Ctx):
     ctx.decide("R18.3", None, None, "csv:dialect-agreement", "all csv reader/writer sites and their open() calls use one delimiter, line terminator, quoting, newline and encoding", len(dial) == 1, {"dialects": [repr(x) for x in sorted(dial, key=repr)], "sites": [f"{q}:{k}" for (q, k, _) in sorted(uniq)]})
     # the comparison is vacuous unless it saw the row writer, the aggregator's own reader
     # (continuation) and the statistics loader's reader
-    have_writer = any(k == "writer" for (_, k, _) in uniq)
-    have_loader = any(k == "reader" and q.startswith("panoptica_statistics") for (q, k, _) in uniq)
-    have_agg_reader = any(k == "reader" and q.startswith("panoptica_aggregator") for (q, k, _) in uniq)
+    # (roles by the run in which a site was executed, not by the module that contains it)
+    have_writer = "writer" in phase_kinds["aggregator"]
+    have_loader = "reader" in phase_kinds["loader"]
+    have_agg_reader = "reader" in phase_kinds["aggregator"]
     if not (have_writer and have_loader and have_agg_reader):
         ctx.undecided("R18.3.floor", None, None, "floor:R18.3", f"csv sites observed: {sorted((q, k) for (q, k, _) in uniq)}; need the row writer, the aggregator's reader and the loader's reader")
 
